@@ -97,8 +97,23 @@ def main():
                 r3 = merge_config(o, v)
                 own_ok = r3 is not r and r3 == clean and o == o0 and v == v0
                 r = clean
+            # an earlier result handed in again as `original` is an argument like any other: a further merge (with
+            # overrides that collide with every section the first merge built) returns a new dictionary and leaves the
+            # earlier result as it was -- base + site, then (base + site) + local
+            chain_ok = True
+            if isinstance(r, dict) and isinstance(v, dict):
+                def deeper(x):
+                    if isinstance(x, dict):
+                        y = {k: deeper(val) for k, val in x.items()}
+                        y["zz_next_layer"] = 1
+                        return y
+                    return x
+                v2 = deeper(copy.deepcopy(v))
+                before = copy.deepcopy(r)
+                r4 = merge_config(r, v2)
+                chain_ok = r == before and r4 is not r and r4.get("zz_next_layer") == 1
             rec = {"result": r, "o_after": o, "v_after": v, "passed_through": same, "second_call_ok": again_ok,
-                   "result_is_the_callers": own_ok,
+                   "result_is_the_callers": own_ok, "chain_ok": chain_ok,
                    "fresh": isinstance(r, dict) and r is not o and r is not v,
                    "o_unchanged": o == o0, "v_unchanged": v == v0}
             json.dumps(rec)
